@@ -25,8 +25,20 @@
      linking operation (re-parenting, container end, Resource.append of a
      contained object).
    Acyclicity of the containment graph is the property's own quantifier
-   (pyecore does not check it); see the theorems at the end of this file for
-   what is proved about it. *)
+   (pyecore does not check it): a call that would put an object inside its own
+   containment subtree is excluded by the precondition op_nocycle, evaluated in
+   the state where the call runs (the model-side twin of creates_cycle in
+   harness/krun.py).  Proved at the end of this file (Proofs/Acyclic.v): every
+   operation satisfying it preserves acyclicity; along every history whose
+   calls satisfy fits_history (many-valued feature for collection calls,
+   existing objects, op_nocycle) the containment graph of every state is a
+   FOREST -- no object is its own transitive container, at most one owning
+   slot, and every container chain ends within the model's fuel at an object
+   without container -- and every object reports the resource of that chain
+   end, in particular every descendant of a container-less object reports its
+   resource.  The precondition cannot be dropped: x.kids.append(x) makes
+   acyclic_cont false in the model (C02_cycle_excluded_witness), while WF
+   (single owner etc.) holds even then. *)
 From Coq Require Import ZArith List Bool Arith.
 From PyecoreV Require Import Lib.PyBase Lib.PyList Model.Kernel Proofs.C01Full Proofs.C02Proofs Proofs.WFBase Proofs.SymLink
   Proofs.OwnAll Proofs.WFCorollaries Model.Premises Proofs.PremisesProofs.
@@ -126,3 +138,62 @@ Theorem C02_invariant_whenever_the_evaluated_premises_hold :
     WF m (reach m ops).
 Proof. exact checked_WF. Qed.
 Print Assumptions C02_invariant_whenever_the_evaluated_premises_hold.
+
+(* ---------- the containment graph is a forest in every reachable state ---------- *)
+From PyecoreV Require Import Proofs.C19Proofs Proofs.C19Once Proofs.Acyclic.
+
+Theorem C02_no_cycle_step :
+  forall m, wf_mm m -> forall s o,
+  WF m s -> acyclic_cont s -> op_fits m s o -> op_nocycle m s o -> acyclic_cont (next m s o).
+Proof. exact acyclic_step. Qed.
+Print Assumptions C02_no_cycle_step.
+
+Theorem C02_containers_stay_within_the_universe_step :
+  forall m s o, in_universe m s -> op_in_universe m o -> in_universe m (next m s o).
+Proof. exact universe_step. Qed.
+Print Assumptions C02_containers_stay_within_the_universe_step.
+
+Theorem C02_containment_is_a_forest_in_every_reachable_state :
+  forall m, wf_mm m -> ref_defaults_none m -> forall ops,
+  fits_history m (init_state m) ops ->
+  acyclic_cont (reach m ops) /\
+  (forall c p p' f f',
+     f_cont (fd m f) = true -> f_cont (fd m f') = true ->
+     In (VObj c) (vals (reach m ops) (p, f)) -> In (VObj c) (vals (reach m ops) (p', f')) -> p = p' /\ f = f') /\
+  (forall o,
+     chain_end (reach m ops) o (root_of (S (length (ocls m))) (reach m ops) o) /\
+     cont (reach m ops) (root_of (S (length (ocls m))) (reach m ops) o) = None).
+Proof. exact reach_forest. Qed.
+Print Assumptions C02_containment_is_a_forest_in_every_reachable_state.
+
+Theorem C02_every_object_reports_its_roots_resource :
+  forall m, wf_mm m -> ref_defaults_none m -> forall ops,
+  fits_history m (init_state m) ops ->
+  forall o r,
+    (chain_end (reach m ops) o r -> eresource_of m (reach m ops) o = eres (reach m ops) r) /\
+    (cont (reach m ops) r = None -> descends m (reach m ops) r o ->
+     eresource_of m (reach m ops) o = eres (reach m ops) r /\
+     eresource_of m (reach m ops) o = eresource_of m (reach m ops) r).
+Proof. exact reach_reports_roots_resource. Qed.
+Print Assumptions C02_every_object_reports_its_roots_resource.
+
+(* the precondition is satisfiable by a history with a re-parenting, a move through the container
+   end and Resource.append of a contained object, and decidable *)
+Example C02_fits_history_witness :
+  fits_history ex_mm_tree (init_state ex_mm_tree) ex_tree_history /\
+  fits_b ex_mm_tree (init_state ex_mm_tree) ex_tree_history = true.
+Proof. split; [exact (proj1 fits_history_witness) | vm_compute; reflexivity]. Qed.
+
+(* ... and not over-strong: the excluded calls do close a cycle in the model, WF notwithstanding *)
+Example C02_cycle_excluded_witness :
+  let m := ex_mm_tree in
+  let s := reach m [OAppend 0 0 (VObj 1)] in
+  (op_ok_b m s (OAppend 0 0 (VObj 0)) = false /\ ~ op_nocycle m s (OAppend 0 0 (VObj 0)) /\
+   ~ acyclic_cont (next m s (OAppend 0 0 (VObj 0)))) /\
+  (op_ok_b m s (OAppend 1 0 (VObj 0)) = false /\ ~ op_nocycle m s (OAppend 1 0 (VObj 0)) /\
+   ~ acyclic_cont (next m s (OAppend 1 0 (VObj 0)))) /\
+  (op_ok_b m s (OSet 0 1 (VObj 1)) = false /\ ~ op_nocycle m s (OSet 0 1 (VObj 1)) /\
+   ~ acyclic_cont (next m s (OSet 0 1 (VObj 1)))) /\
+  WF m (next m s (OAppend 1 0 (VObj 0))).
+Proof. exact cycle_excluded. Qed.
+Print Assumptions C02_cycle_excluded_witness.
